@@ -1,6 +1,9 @@
 package main
 
-import "mltwist/verifh/prog"
+import (
+	"mltwist/verifh/eng"
+	"mltwist/verifh/prog"
+)
 
 // programs used by the UI checks.
 type uiProg struct {
@@ -28,11 +31,44 @@ var uiProgs = []uiProg{
 	}}}, 0x1000},
 }
 
+// uiProgsDeep are used by the thorough tiers only.
+var uiProgsDeep = []uiProg{
+	// blocks of 3, 2, 2 and 4 instructions; the first and the last hold mutually independent instructions
+	{"four-blocks", []prog.Seg{{Base: 0x1000, Words: []uint32{
+		prog.Addi(1, 0, 1), prog.Addi(2, 0, 2), prog.Beq(1, 2, 12), // -> 0x1014
+		prog.Addi(3, 0, 3), prog.Jal(0, 12), // -> 0x101c
+		prog.Sw(3, 5, 0), prog.Lw(4, 5, 4),
+		prog.Add(6, 4, 3), prog.Addi(7, 0, 7), prog.Addi(8, 0, 8), prog.Jal(0, -40), // -> 0x1000
+	}}}, 0x100c},
+	// two segments, five blocks, entry in the middle of the second segment
+	{"two-segments", []prog.Seg{
+		{Base: 0x1000, Words: []uint32{prog.Addi(1, 0, 1), prog.Bne(1, 0, 8), prog.Addi(2, 0, 2), prog.Addi(3, 0, 3), prog.Jal(0, -16)}},
+		{Base: 0x3000, Words: []uint32{prog.Addi(4, 0, 4), prog.Jal(0, 8), prog.Ecall, prog.Addi(5, 0, 5), prog.Addi(6, 0, 6), prog.Jal(0, -12)}},
+	}, 0x300c},
+}
+
 func progByName(n string) uiProg {
+	for _, p := range uiProgsDeep {
+		if p.Name == n {
+			return p
+		}
+	}
 	for _, p := range uiProgs {
 		if p.Name == n {
 			return p
 		}
 	}
 	return uiProgs[0]
+}
+
+// deepNames adds the thorough-only programs to a list of program names.
+func deepNames(r *eng.Run, names []string) []string {
+	if r.Quick() {
+		return names
+	}
+	out := append([]string{}, names...)
+	for _, p := range uiProgsDeep {
+		out = append(out, p.Name)
+	}
+	return out
 }
